@@ -252,6 +252,94 @@ def replace_harness(e):
     return scenario
 
 
+_DEFKID: dict[str, Any] = {}
+
+
+def node_default_harness(e):
+    """A child field whose class-level DEFAULT is a node (frozen, hashable: a legal dataclass default
+    such as an empty block): an original that still holds the default gets it copied like any other child."""
+    import dataclasses as dc
+    import sys
+    import types
+
+    from models.zoo import VLeaf, VMany
+    from pyoak.node import NODE_REGISTRY, ASTNode
+
+    reset_all()
+    if not _DEFKID:
+        mod = types.ModuleType("vgen_defkid")
+        sys.modules["vgen_defkid"] = mod
+        src = (
+            "from dataclasses import dataclass, field\nfrom models.zoo import VBase, VLeaf, VMany\n\n"
+            "EMPTY = VMany(items=())\nPASS = VLeaf(v=-1)\n\n"
+            "@dataclass(frozen=True)\nclass VDefKid(VBase):\n    body: VBase = EMPTY\n    first: VBase | None = PASS\n    rest: tuple[VBase, ...] = (PASS,)\n    v: int = 0\n"
+        )
+        exec(compile(src, "vgen_defkid", "exec", dont_inherit=True), mod.__dict__)
+        _DEFKID["cls"] = mod.__dict__["VDefKid"]
+    cls = _DEFKID["cls"]
+    how = e.pick(["all-defaults", "explicit-children", "mixed", "below-a-parent", "defaults-re-registered", "derived-child", "derived-child-below-a-parent"], "original")
+    if how.startswith("derived-child"):
+        # a child field that is no constructor argument: the class derives it (also for the copy)
+        from models.zoo import VDerived
+
+        orig = VDerived(name="foo") if how == "derived-child" else VMany(items=(VLeaf(v=1), VDerived(name="ab")))
+        try:
+            copy = orig.duplicate()
+        except Exception as ex:  # noqa: BLE001
+            e.fail("duplicate-raises:derived-child-field", scenario={"kind": "node-valued-defaults", "original": how, "raised": f"{type(ex).__name__}: {ex}"[:160]})
+        scenario = {"kind": "node-valued-defaults", "original": how}
+        o_nodes = [orig] + [i.node for i in orig.dfs()]
+        c_nodes = [copy] + [i.node for i in copy.dfs()]
+        if not (copy == orig) or len(o_nodes) != len(c_nodes) or any(a.content_id != b.content_id for a, b in zip(o_nodes, c_nodes)):
+            e.fail("duplicate-not-equal-to-original", scenario=scenario)
+        if {id(n) for n in o_nodes} & {id(n) for n in c_nodes}:
+            e.fail("duplicate-reuses-an-original-object", scenario=scenario)
+        if any(ASTNode.get_any(b.id) is not b for b in c_nodes):
+            e.fail("duplicate-node-not-registered", scenario=scenario)
+        e.distinct(how)
+        return scenario
+    if how == "defaults-re-registered":
+        for f in dc.fields(cls):
+            if isinstance(f.default, ASTNode):
+                NODE_REGISTRY[f.default.id] = f.default  # the defaults are live, registered nodes (as right after import)
+    if how in ("all-defaults", "defaults-re-registered"):
+        orig = cls(v=1)
+    elif how == "explicit-children":
+        orig = cls(body=VMany(items=()), first=VLeaf(v=-1), rest=(VLeaf(v=-1),), v=1)
+    elif how == "mixed":
+        orig = cls(first=VLeaf(v=5), v=1)
+    else:
+        orig = VMany(items=(cls(v=1), cls(rest=(), v=2)))
+    copy = orig.duplicate()
+    scenario = {"kind": "node-valued-defaults", "original": how}
+
+    def walk(n, out):
+        out.append(n)
+        for f in dc.fields(n):
+            v = getattr(n, f.name)
+            if isinstance(v, ASTNode):
+                walk(v, out)
+            elif isinstance(v, tuple):
+                for c in v:
+                    if isinstance(c, ASTNode):
+                        walk(c, out)
+        return out
+
+    o_nodes, c_nodes = walk(orig, []), walk(copy, [])
+    if not (copy == orig) or len(o_nodes) != len(c_nodes) or any(a.content_id != b.content_id or type(a) is not type(b) for a, b in zip(o_nodes, c_nodes)):
+        e.fail("duplicate-not-equal-to-original", scenario=scenario)
+    o_ids = {id(n) for n in o_nodes}
+    for b in c_nodes:
+        if id(b) in o_ids:
+            scenario.update(shared=type(b).__name__)
+            e.fail("duplicate-reuses-an-original-object", scenario=scenario)
+        if ASTNode.get_any(b.id) is not b:
+            scenario.update(node=type(b).__name__)
+            e.fail("duplicate-node-not-registered", scenario=scenario)
+    e.distinct(how)
+    return scenario
+
+
 def spec(tier: str, seed: int) -> Spec:
     n = 5 if tier == "quick" else 7
     shapes = [(s, False) for s in all_shapes(n, 3)]
@@ -264,6 +352,7 @@ def spec(tier: str, seed: int) -> Spec:
 
     for first in ("MNamed", "MBodied", "MFunc", "MEmpty"):
         fams.append(Family(f"duplicate-multiple-inheritance-first-{first}", make_duplicate_harness([], prepare=lambda e, _f=first: _mi_prepare(e, (_f,))), variables="as above; freshly created classes with multiple inheritance and empty bodies; the class used first is fixed per family"))
+    fams.append(Family("node-valued-defaults", node_default_harness, variables="selector: which children of the original are the class-level default nodes"))
     fams.append(Family("replace", replace_harness, variables="selectors: base, twin (and creation order), state, changed fields, operation"))
     return Spec(
         families=fams,
